@@ -389,7 +389,7 @@ func genIfaceWorkflow(c *Chooser) string {
 				fmt.Fprintf(&b, "        type: %s\n", t)
 				empty = false
 			}
-			if r := []string{"", "true", "false"}[c.Int("world.irequired", 3)]; r != "" {
+			if r := []string{"", "true", "false", "True", "TRUE", "False"}[c.Int("world.irequired", 6)]; r != "" {
 				fmt.Fprintf(&b, "        required: %s\n", r)
 				empty = false
 			}
@@ -422,13 +422,17 @@ func genIfaceWorkflow(c *Chooser) string {
 		b.WriteString("    secrets:\n")
 		for _, n := range []string{"TOKEN", "key"} {
 			fmt.Fprintf(&b, "      %s:\n", n)
-			switch c.Int("world.srequired", 3) {
+			switch c.Int("world.srequired", 5) {
 			case 0:
 				b.WriteString("        description: s\n")
 			case 1:
 				b.WriteString("        required: true\n")
 			case 2:
 				b.WriteString("        required: false\n")
+			case 3:
+				b.WriteString("        required: True\n")
+			case 4:
+				b.WriteString("        required: TRUE\n")
 			}
 		}
 	}
